@@ -496,6 +496,7 @@ type fieldAccess struct {
 	Write  bool
 	Locked bool
 	Fresh  bool // base is a value allocated in this function (constructor)
+	Mode   byte // mode in which the guarding mutex is held here ('W' | 'R'), 0 when not held
 }
 
 // guardedStructs returns, for each named struct type with a sync mutex field
@@ -551,9 +552,13 @@ func fieldAccesses(fn *ssa.Function, owner, mutexField string, entry heldSet) []
 			base := stripFree(lf.tb.of(fa.X, 0)).String()
 			wantPath := base + "." + mutexField
 			locked := false
+			var mode byte
 			for _, h := range lf.Must[in] {
 				if h.Path == wantPath {
 					locked = true
+					if mode != 'W' {
+						mode = h.Mode
+					}
 				}
 			}
 			// classify uses of the address
@@ -579,6 +584,26 @@ func fieldAccesses(fn *ssa.Function, owner, mutexField string, entry heldSet) []
 							if CalleeName(w.Common()) == "builtin:delete" && len(w.Common().Args) > 0 && w.Common().Args[0] == ssa.Value(u) {
 								write = true
 							}
+							// the loaded slice/map handed to something that rewrites its elements in place
+							for k, a := range w.Common().Args {
+								if stripConv(a) == ssa.Value(u) && mutatesArg(w.Common(), k, 0) {
+									write = true
+								}
+							}
+						case *ssa.IndexAddr:
+							for _, r3 := range *w.Referrers() {
+								if st, ok := r3.(*ssa.Store); ok && st.Addr == ssa.Value(w) {
+									write = true
+								}
+							}
+						}
+					}
+				case ssa.CallInstruction:
+					read = true
+					// the field's address handed to something that writes through it
+					for k, a := range u.Common().Args {
+						if a == ssa.Value(fa) && mutatesArg(u.Common(), k, 0) {
+							write = true
 						}
 					}
 				default:
@@ -586,12 +611,87 @@ func fieldAccesses(fn *ssa.Function, owner, mutexField string, entry heldSet) []
 				}
 			}
 			if write {
-				out = append(out, fieldAccess{fn, in, name, true, locked, fresh})
+				out = append(out, fieldAccess{fn, in, name, true, locked, fresh, mode})
 			}
 			if read {
-				out = append(out, fieldAccess{fn, in, name, false, locked, fresh})
+				out = append(out, fieldAccess{fn, in, name, false, locked, fresh, mode})
 			}
 		}
 	}
 	return out
+}
+
+// mutatesArg: does the callee rewrite, in place, the elements of its k-th argument (a slice or
+// map)? Library sorts do; an own function does when it stores through an element address of
+// that parameter, updates/deletes in it as a map, or hands it on to something that does.
+func mutatesArg(cc *ssa.CallCommon, k int, depth int) bool {
+	name := CalleeName(cc)
+	switch {
+	case name == "sort.Slice" || name == "sort.SliceStable" || name == "sort.Sort" || name == "sort.Stable" || name == "sort.Strings" || name == "sort.Ints":
+		return k == 0
+	case strings.HasPrefix(name, "slices.Sort") || strings.HasPrefix(name, "slices.Reverse"):
+		return k == 0
+	case name == "builtin:copy":
+		return k == 0
+	}
+	g := cc.StaticCallee()
+	if g == nil || !IsOwn(g) || len(g.Blocks) == 0 || depth > 3 || k >= len(g.Params) {
+		return false
+	}
+	prm := g.Params[k]
+	fromParam := func(v ssa.Value) bool {
+		for i := 0; i < 4 && v != nil; i++ {
+			v = stripConv(v)
+			if v == ssa.Value(prm) {
+				return true
+			}
+			switch x := v.(type) {
+			case *ssa.Slice:
+				v = x.X
+			case *ssa.UnOp:
+				// the parameter is a pointer to the slice/map: *p
+				if x.X == ssa.Value(prm) {
+					return true
+				}
+				// value receivers and captured parameters are spilled to a cell
+				if al, ok := x.X.(*ssa.Alloc); ok {
+					if sv := uniqueStore(al); sv != nil {
+						v = sv
+						continue
+					}
+				}
+				return false
+			default:
+				return false
+			}
+		}
+		return false
+	}
+	for _, b := range g.Blocks {
+		for _, in := range b.Instrs {
+			switch x := in.(type) {
+			case *ssa.Store:
+				if ia, ok := x.Addr.(*ssa.IndexAddr); ok && fromParam(ia.X) {
+					return true
+				}
+				if x.Addr == ssa.Value(prm) {
+					return true // *p = …
+				}
+			case *ssa.MapUpdate:
+				if fromParam(x.Map) {
+					return true
+				}
+			case ssa.CallInstruction:
+				if CalleeName(x.Common()) == "builtin:delete" && len(x.Common().Args) > 0 && fromParam(x.Common().Args[0]) {
+					return true
+				}
+				for j, a := range x.Common().Args {
+					if fromParam(a) && mutatesArg(x.Common(), j, depth+1) {
+						return true
+					}
+				}
+			}
+		}
+	}
+	return false
 }
